@@ -510,6 +510,8 @@ type vBookOpts struct {
 	Notes      bool
 	NBasics    int
 	NoWide     bool // never add the occasional pair of 30-60 element recipes
+	PathSegs   []string // segment alphabet for Paths (default a, b, c, dd, "e f")
+	PathMax    int      // maximum number of segments (default 3)
 }
 
 type vBookInfo struct {
@@ -529,9 +531,16 @@ func vGenBook(t *rapid.T, o vBookOpts, label string) (vDoc, vBookInfo) {
 	var names []string
 	if o.Paths {
 		segs := []string{"a", "b", "c", "dd", "e f"}
+		if len(o.PathSegs) > 0 {
+			segs = o.PathSegs
+		}
+		pmax := 3
+		if o.PathMax > 0 {
+			pmax = o.PathMax
+		}
 		seen := map[string]bool{}
 		for len(names) < nrec+nbasic {
-			p := vGenPath(t, segs, 3, label+".path")
+			p := vGenPath(t, segs, pmax, label+".path")
 			for seen[p] {
 				p += "x"
 			}
